@@ -249,8 +249,8 @@ func genC19(g *G) {
 		src := &c19src{}
 		ctr := distinct.VerifNewCounter[int](size, src)
 		ops := []string{fmt.Sprintf("reset %d", size)}
-		keepBias := 1 + g.Intn(4)    // coin keeps with probability keepBias/5
-		halveStyle := g.Intn(5)      // 0 random, 1 mostly keep-all, 2 mostly sparse, 3 mixed, 4 realistic coin too
+		keepBias := 1 + g.Intn(4) // coin keeps with probability keepBias/5
+		halveStyle := g.Intn(5)   // 0 random, 1 mostly keep-all, 2 mostly sparse, 3 mixed, 4 realistic coin too
 		for _, v := range vals {
 			if g.Chance(1, 60) {
 				ops = append(ops, "rst")
